@@ -86,3 +86,17 @@ def appended_in_handler(fnode, exc_name: str) -> str:
                         and isinstance(m.args[0], ast.Name) and m.args[0].id == n.name):
                     return m.func.value.id
     raise Untranslatable(f"role appended_in_handler({exc_name}) not found")
+
+
+def with_target(fnode, callee: str) -> str:
+    """the name bound by `with <callee>(...) as <name>` (first such item in source order)"""
+    for n in ast.walk(fnode):
+        if isinstance(n, (ast.With, ast.AsyncWith)):
+            for it in n.items:
+                c = it.context_expr
+                if isinstance(c, ast.Call):
+                    f = c.func
+                    nm = f.id if isinstance(f, ast.Name) else (f.attr if isinstance(f, ast.Attribute) else None)
+                    if nm == callee and isinstance(it.optional_vars, ast.Name):
+                        return it.optional_vars.id
+    raise Untranslatable(f"role with_target({callee}) not found")
